@@ -3,6 +3,7 @@ package main
 import (
 	"fmt"
 	"go/types"
+	"os"
 	"strconv"
 
 	"golang.org/x/tools/go/ssa"
@@ -128,6 +129,12 @@ func init() {
 	Z["And"] = func(m *Machine, fn *ssa.Function, a []Value) Value { return m.tt.And(a[1].(*Term), a[2].(*Term)) }
 	Z["Or"] = func(m *Machine, fn *ssa.Function, a []Value) Value { return m.tt.Or(a[1].(*Term), a[2].(*Term)) }
 	Z["Implies"] = func(m *Machine, fn *ssa.Function, a []Value) Value { return m.tt.Implies(a[1].(*Term), a[2].(*Term)) }
+	Z["Log"] = func(m *Machine, fn *ssa.Function, a []Value) Value {
+		if os.Getenv("GOSYM_DEBUG") != "" {
+			fmt.Fprintf(os.Stderr, "[harness log] %s\n", m.describe(a[1]))
+		}
+		return nil
+	}
 	// monitor side table: symbolic-only key/value store for paired stubs
 	Z["SideSet"] = func(m *Machine, fn *ssa.Function, a []Value) Value {
 		m.path.side[concStr(m, a[1])] = a[2]
